@@ -20,6 +20,7 @@ POOL = {
     'dwt1d_pc': ("DWT1DForward(J=2, wave='db2', mode='periodic')", 'float64'),
     'idwt_per': ("DWTInverse(wave='db3', mode='periodization')", 'float64'),
     'dwt_coif1': ("DWTForward(J=1, wave='coif1', mode='zero')", 'float64'),      # same filter length as db3, other taps
+    'dtf_masks': ("DTCWTForward(biort='near_sym_b', qshift='qshift_c', J=3, skip_hps=[False, True, False], include_scale=[True, False, True])", 'float64'),
 }
 ORDER = list(POOL)
 LOADS = ['near_sym_a', 'qshift_a', 'qshift_b']
@@ -34,7 +35,7 @@ def _arr(shape, k, dtype):
 def inputs(name, i):
     """Fixed input number i (0/1: different shapes) for module `name`, as a list-structured description of numpy arrays."""
     dt = np.float32 if POOL[name][1] == 'float32' else np.float64
-    if name in ('dtf_a', 'dtf_b', 'scat1', 'dwt_per', 'dwt_sym32', 'dwt_coif1'):
+    if name in ('dtf_a', 'dtf_b', 'scat1', 'dwt_per', 'dwt_sym32', 'dwt_coif1', 'dtf_masks'):
         shape = [(1, 1, 8, 8), (2, 2, 6, 10)][i] if name != 'scat1' else [(1, 1, 8, 8), (2, 2, 6, 12)][i]
         return {'x': _arr(shape, i, dt)}
     if name == 'dwt1d_pc':
@@ -112,7 +113,10 @@ def call(mod, name, i, gradmode):
         live = [o for o in outs if o.requires_grad]
         cots = [torch.as_tensor(_arr(tuple(o.shape), 9, np.float64)).to(o.dtype).contiguous() for o in live]
         cb = digest(cots)
-        grads = list(torch.autograd.grad(live, leaves, grad_outputs=cots, allow_unused=True))
+        grads = list(torch.autograd.grad(live, leaves, grad_outputs=cots, allow_unused=True, retain_graph=True))
+        again = list(torch.autograd.grad(live, leaves, grad_outputs=cots, allow_unused=True))     # same graph, same cotangent
+        if digest(again) != digest(grads):
+            grads = grads + ['second_backward_through_the_same_graph_differs']
         cot_state = (cb, digest(cots))          # the caller's cotangents are arguments too: they must come back untouched
     return arg_struct, before, outs, grads, out, cot_state
 
@@ -129,6 +133,8 @@ def digest(o):
         return None
     if isinstance(o, np.ndarray):
         return hidden.canon(o)
+    if isinstance(o, str):
+        return o
     return repr(type(o))
 
 
@@ -164,7 +170,7 @@ def op_result_digest(op, env):
         after = digest(args)
         if cot_state is not None and cot_state[0] != cot_state[1]:
             after = ['cotangent_mutated', after]
-        kept = [raw, [g for g in grads if g is not None]]          # the very objects handed to the caller
+        kept = [raw, [g for g in grads if g is not None and not isinstance(g, str)]]          # the very objects handed to the caller
         env['keep'].append((op, kept, digest(kept)))
         return {'outputs': digest(outs), 'grads': digest(grads), 'args_before': before, 'args_after': after}
     raise ValueError(op)
